@@ -40,7 +40,7 @@ def all_binaries(flavours):
 
 
 def fuzz_binaries():
-    return [('h_flow', k, 'fuzz') for k in FLOW6]
+    return [(h, k, 'fuzz') for h in ('h_flow', 'h_erode', 'h_hist') for k in FLOW6]
 
 
 def runs(harness, kinds, flavour, nshards, cases, extra=None, prop=None, **kw):
@@ -466,12 +466,13 @@ _indep('C14', ['raster_queen', 'raster_rook_nc'], ['raster_queen', 'raster_rook_
 # libFuzzer (clang 14, ASan+UBSan) mutates the decision stream of the h_flow generators: every byte string is a valid case
 # (grid, operator sequence, field / mask / base-level classes, 1-3 updates) judged by the same oracles. A campaign stops at
 # the first violation of its property (or sanitizer report), keeps the input as the replay and restarts behind it.
-def _fuzz(pid, quick_runs, thorough_runs, kinds_q=('raster_queen', 'profile'), prop=None):
+def _fuzz(pid, quick_runs, thorough_runs, kinds_q=('raster_queen', 'profile'), prop=None, harness='h_flow', kinds_t=None):
     q0, t0 = PLAN[pid]['quick'], PLAN[pid]['thorough']
     pr = prop or pid
+    kt = list(kinds_t or FLOW6)
     if quick_runs:
-        PLAN[pid]['quick'] = lambda seed: q0(seed) + runs('h_flow', list(kinds_q), 'fuzz', 1, quick_runs, prop=pr, case_timeout=120)
-    PLAN[pid]['thorough'] = lambda seed: t0(seed) + runs('h_flow', FLOW6, 'fuzz', 2, thorough_runs, prop=pr, case_timeout=300)
+        PLAN[pid]['quick'] = lambda seed: q0(seed) + runs(harness, list(kinds_q), 'fuzz', 1, quick_runs, prop=pr, case_timeout=120)
+    PLAN[pid]['thorough'] = lambda seed: t0(seed) + runs(harness, kt, 'fuzz', 2, thorough_runs, prop=pr, case_timeout=300)
     PLAN[pid]['rule'] += (' Plus coverage-guided campaigns (libFuzzer over the decision stream of the generators, ASan+UBSan; see '
                           'coverage.fuzzing): the fuzzer steers the structural choices towards library code not yet executed.')
 
@@ -480,3 +481,8 @@ _fuzz('C06', 2500, 40000)
 _fuzz('C08', 0, 40000, prop='all')
 for _p in ('C01', 'C02', 'C03', 'C04', 'C05', 'C19', 'C15'):
     _fuzz(_p, 0, 25000)
+_fuzz('C13', 2000, 25000, kinds_q=('raster_queen', 'trimesh'), harness='h_erode')
+_fuzz('C12', 0, 25000, harness='h_erode')
+_fuzz('C14', 0, 25000, harness='h_erode', kinds_t=RASTERS_FLOW if 'RASTERS_FLOW' in globals() else ['raster_rook', 'raster_queen', 'raster_bishop', 'raster_queen_nc'])
+_fuzz('C09', 1000, 12000, kinds_q=('raster_queen', 'trimesh'), harness='h_hist')
+_fuzz('C16', 0, 12000, harness='h_hist')
